@@ -44,7 +44,9 @@ def model_call(c):
          "segs": c.get("segs", []), "lens": c.get("lens", []), "offset": w8(c.get("offset", 0)), "delta": w8(c.get("delta", 0)),
          "whence": c.get("whence", 0), "bytes": c.get("bytes", []), "target": c.get("target", ""), "buflen": c.get("buflen", 0),
          "path2": c.get("path2", ""), "parent": c.get("parent", ""), "parent2": c.get("parent2", ""), "under": c.get("under", []),
-         "slash": c.get("rawpath", "").endswith("/"), "slash2": c.get("rawpath2", "").endswith("/")}
+         "slash": c.get("rawpath", "").endswith("/"), "slash2": c.get("rawpath2", "").endswith("/"),
+         # the last component of the raw path is "." (c["path"] is then the directory it denotes)
+         "dot": bool(c.get("dot")), "dot2": bool(c.get("dot2"))}
     return m
 
 
